@@ -715,7 +715,7 @@ def geo_cases(draw, n_max=10):
         el = eligible_count(needs, eps * margin)
         per = len(edges) ** 2 / float(max(1, el))
         it = int(max(1, min(it, 40000 // max(1.0, per),
-                            12000 // max(1, len(edges) ** 2))))
+                            2000 // max(1, len(edges) ** 2))))
     case["eps"] = float(eps)
     case["iterations"] = int(it)
     case["seeds"] = draw(seeds_st(3))
@@ -886,9 +886,9 @@ def cross_rewire_cases(draw):
             swaps = 1.0
     if ncl and swaps * ncl > 80:
         swaps = 80.0 / ncl
-    if ncl and swaps * ncl * ncl * ncl > 12000 and swaps * ncl >= 2:
+    if ncl and swaps * ncl * ncl * ncl > 2000 and swaps * ncl >= 2:
         # bound swaps * ncl^2 (worst-case expected number of proposals)
-        swaps = max(1, 12000 // (ncl * ncl)) / float(ncl)
+        swaps = max(1, 2000 // (ncl * ncl)) / float(ncl)
     el = xrewire_eligible(C) if ncl else 0
     if el == 0:
         swaps = 0.0
@@ -1142,17 +1142,30 @@ def by_distance_cases(draw):
 
 # ====================================================================== table
 
+def _run(gen, oracle):
+    """run_cases with a smaller shrink budget: on a tree where a proposal
+    loop does not terminate every failing evaluation costs the whole
+    proposal budget, and the work unit must still finish in time."""
+    def run(ctx):
+        return pbt.run_cases(ctx, gen(), oracle, ctx.n,
+                             shrink_budget=80 if ctx.tier == "quick" else 400)
+    return run
+
+
 SUBCHECKS = [
     SubCheck("models", oracle_models, gen=model_cases,
-             quick=(3, 250), thorough=(8, 3000)),
+             quick=(3, 300), thorough=(8, 3500)),
     SubCheck("rewire", oracle_rewire, gen=rewire_cases,
-             quick=(3, 200), thorough=(8, 2500)),
-    SubCheck("geomodel", oracle_geomodel, gen=geo_cases,
-             quick=(4, 200), thorough=(8, 3000), timeout=(600, 7200)),
-    SubCheck("cross_rewire", oracle_cross_rewire, gen=cross_rewire_cases,
-             quick=(3, 200), thorough=(8, 2500)),
-    SubCheck("cross_set", oracle_cross_set, gen=cross_set_cases,
-             quick=(3, 200), thorough=(8, 2500)),
+             quick=(3, 250), thorough=(8, 3000)),
+    SubCheck("geomodel", oracle_geomodel,
+             run=_run(lambda: geo_cases(), oracle_geomodel),
+             quick=(4, 300), thorough=(8, 5000)),
+    SubCheck("cross_rewire", oracle_cross_rewire,
+             run=_run(lambda: cross_rewire_cases(), oracle_cross_rewire),
+             quick=(3, 250), thorough=(8, 3000)),
+    SubCheck("cross_set", oracle_cross_set,
+             run=_run(lambda: cross_set_cases(), oracle_cross_set),
+             quick=(3, 250), thorough=(8, 3000)),
     SubCheck("by_distance", oracle_by_distance, gen=by_distance_cases,
              quick=(2, 200), thorough=(8, 1500)),
 ]
